@@ -91,6 +91,11 @@ pub fn c09_script(r: &mut Rng, index: u64, _tier: Tier) -> (CaseCfg, Vec<Step>) 
                     Prop::ContentType(s) | Prop::ResponseTopic(s) => s.is_char_boundary(s.len()) && std::str::from_utf8(s.as_bytes()).is_ok(),
                     _ => true,
                 });
+                // the one property only a will may carry, at either end of the block
+                if r.chance(1, 2) {
+                    let at = if r.chance(1, 2) { 0 } else { props.len() };
+                    props.insert(at, Prop::WillDelay(*r.pick(&[0u32, 1, 30, 65536, u32::MAX])));
+                }
                 cfg.will = Some(WillSpec {
                     topic: str_of(*r.pick(&[1usize, 2, 64, 127, 128]), r),
                     payload: { let n = *r.pick(&[0usize, 1, 127, 128, 1000]); r.bytes(n) },
